@@ -395,6 +395,25 @@ func VH_C13_Rec()      { vhC13[vgRec](vhNoElide) }
 func VH_C13_PlusPrefix()  { vhC13[vgPlusPrefix](vhNoElide) }
 func VH_C13_LeakPartial() { vhC13[vgLeakPartial](vhNoElide) }
 
+// a nested choice behind an alternative that got deeper before it was abandoned
+type vgDeepP struct {
+	Z bool `A B ( C A @"z" )? "q"`
+}
+type vgDeepQ struct {
+	X string `( A B C @"x" | A B C @A B )`
+}
+type vgDeepR struct {
+	Rest []string `A @( A | B | C )*`
+}
+type vgDeep struct {
+	P *vgDeepP `  @@`
+	Q *vgDeepQ `| @@`
+	R *vgDeepR `| @@`
+}
+
+func VH_C13_Deep() { vhC13[vgDeep](vhNoElide) }
+func VH_C01_Deep() { vhC01[vgDeep](vhNoElide) }
+
 func VH_C13_Canary() { VH_C01_Canary() }
 
 func VH_C01_NegOpt()     { vhC01[vgNegOpt](vhElideWs) }
